@@ -478,6 +478,10 @@ def family(repo, work, w2c2, m, calls, imp, tr, build, spec, cap=12):
             out["diffs"].append(dict(d, kind="family-" + d["kind"], instance=k, role="ABCD"[k]))
         if any(x is False for x in r.bound.values()):
             out["diffs"].append({"kind": "family-import-not-bound", "instance": k, "role": "ABCD"[k], "real": r.bound})
+    # a crash of the program ends every later call: report the crash, not the calls that could not run after it
+    if any(dd["kind"] == "family-result" and dd["real"][0] in ("ub", "crash", "timeout") for dd in out["diffs"]):
+        out["diffs"] = [dd for dd in out["diffs"] if not (dd["kind"] == "family-result" and dd["real"][0] == "missing")]
+        out["diffs"].sort(key=lambda dd: not (dd["kind"] == "family-result" and dd["real"][0] in ("ub", "crash", "timeout")))
     # the host calls of the whole family, in the order they happened: (callee, argument bits); the calling instance is checked on the real side
     created_at = {1: at, 3: 0}
     seq = []
